@@ -368,6 +368,12 @@ func c14Replay(co *caseOut, dir, kind string, raw json.RawMessage) error {
 			return err
 		}
 		return c14FragRun(co, dir, []c14FragInput{in})
+	case "initframe":
+		var in c14InitInput
+		if err := json.Unmarshal(raw, &in); err != nil {
+			return err
+		}
+		return c14InitRun(co, dir, []c14InitInput{in})
 	case "reject":
 		var in c14RejectInput
 		if err := json.Unmarshal(raw, &in); err != nil {
